@@ -120,7 +120,7 @@ func Spec_addAnchoringCriteriaToAlternatives(
 				value := r.Coefficients.Spec_Fetch(c.Id)
 				criterionValue += value * c.Weight
 			}
-			newValue := bounding.scaling.ValuesRange.Min + diff + diff*criterionValue
+			newValue := Spec_pointOfRange(&bounding.scaling.ValuesRange, diff, criterionValue)
 			newValue = bounding.bounding.Spec_BoundValue(newValue)
 			alt = *alt.Spec_WithCriterion(anchoringCriterion.Id, newValue)
 			anchoringCriterion.AlternativesValues[alt.Id] = newValue
@@ -157,4 +157,13 @@ func Spec_normalizeCriteriaByTotalValue(criteria model.WeightedCriteria) {
 	for i, c := range criteria {
 		criteria[i].Weight = c.Weight / total
 	}
+}
+
+// C19: mid-range plus half-range x mean, measured from the end of the range the mean points to: means of 1 and -1 give
+// the ends of the reference range exactly, means between them stay inside it
+func Spec_pointOfRange(valuesRange *utils.ValueRange, halfRange, ratio float64) float64 {
+	if ratio >= 0 {
+		return valuesRange.Max - halfRange*(1-ratio)
+	}
+	return valuesRange.Min + halfRange*(1+ratio)
 }
